@@ -358,6 +358,26 @@ def scenarios(rng, tier):
             ss.renew_lease(SI["iA"], secrets("lease%d" % k)[0])
         out.append(("imm_renew_lease", True, ["final/iA/0", "final/iA/1"], {}, setup, op_renew))
 
+    # ---- the lease checker's primitive (expirer.py process_share -> cancel_lease): one lease of a share holding n
+    # ---- leases is cancelled; the leases stored behind it are the ones a crash must not lose
+    for n in ([1, 2, 3, 5] if quick else [1, 2, 3, 4, 5, 2, 3, 5]):
+        d0, d1, other = rbytes(rng, rng.randint(4, 16)), rbytes(rng, rng.randint(4, 16)), rbytes(rng, 5)
+
+        def setup(ss, n=n, d0=d0, d1=d1, other=other):
+            upload(ss, "iB", {0: other}, "iB-up")
+            upload(ss, "iA", {0: d0, 1: d1}, "lease0")
+            for k in range(1, n):
+                tick()
+                ss.add_lease(SI["iA"], *secrets("lease%d" % k))
+            tick()
+        k = 0 if rng.random() < 0.6 else rng.randrange(n)
+
+        def op_cancel(ss, k=k):
+            from allmydata.storage.shares import get_share_file
+            get_share_file(os.path.join(ss.sharedir, storage_index_to_dir(SI["iA"]), "0")).cancel_lease(secrets("lease%d" % k)[1])
+        op_cancel.cancel = ("iA", "lease%d" % k)
+        out.append(("imm_cancel_lease", False, ["final/iA/0"], {}, setup, op_cancel))
+
     # ---- the same on a share larger than Python's file buffer (default buffering only)
     for rep in range(1 if quick else 2):
         big = rbytes(rng, 4200 + rng.randint(0, 300))
@@ -405,6 +425,17 @@ def scenarios(rng, tier):
         def op_renew(ss, k=k):
             ss.renew_lease(SI["mA"], secrets("mlease%d" % k)[0])
         out.append(("mut_renew_lease", True, ["final/mA/0", "final/mA/1"], {}, setup, op_renew))
+
+    for n in ([1, 3, 5, 6] if quick else [1, 2, 3, 4, 5, 6, 7, 5]):
+        d0, d1, other = rbytes(rng, rng.randint(5, 30)), rbytes(rng, rng.randint(5, 30)), rbytes(rng, 9)
+        setup = msetup(n, d0, d1, other)
+        k = 0 if rng.random() < 0.6 else rng.randrange(n)
+
+        def op_mcancel(ss, k=k):
+            from allmydata.storage.shares import get_share_file
+            get_share_file(os.path.join(ss.sharedir, storage_index_to_dir(SI["mA"]), "0")).cancel_lease(secrets("mlease%d" % k)[1])
+        op_mcancel.cancel = ("mA", "mlease%d" % k)
+        out.append(("mut_cancel_lease", False, ["final/mA/0"], {}, setup, op_mcancel))
 
     for n in ([6, 5] if quick else [5, 6, 7, 1, 6]):
         L0 = rng.randint(8, 30)
@@ -501,7 +532,7 @@ def main():
         for sc in scs:
             if len(sc) == 7:
                 runs.append(sc)
-            elif sc[0] in ("imm_add_lease", "imm_renew_lease", "imm_allocate_existing", "mut_add_lease", "mut_grow"):
+            elif sc[0] in ("imm_add_lease", "imm_renew_lease", "imm_allocate_existing", "mut_add_lease", "mut_grow", "imm_cancel_lease", "mut_cancel_lease"):
                 runs.append(sc + ("os",))
                 runs.append(sc + ("small",))
             else:
@@ -527,6 +558,21 @@ def main():
             del ss
             t_op = vr.rightNow
             fs0 = snapshot(base)
+            extra = {}
+            if hasattr(op, "cancel"):
+                # the lease records that the operation is asked to remove (every record carrying that cancel secret)
+                name, tag = op.cancel
+                p0 = os.path.join(base, share_rel(name, 0))
+                try:
+                    sf0 = ShareFile(p0) if KIND[name] == "imm" else MutableShareFile(p0)
+                    extra["cancel"] = [raw_lease(l, KIND[name]) for l in sf0.get_leases() if l.is_cancel_secret(secrets(tag)[1])]
+                except Exception as e:  # the container that setup built cannot be read back
+                    import traceback
+                    traces.append({"consts": {"op": kind, "scenario": sn, "bufmode": bufmode, "phase": "setup"}, "events": [],
+                                   "exception": "%s: %s" % (type(e).__name__, str(e)[:200]),
+                                   "where": traceback.format_exc().strip().splitlines()[-3].strip()[:200]})
+                    shutil.rmtree(base, ignore_errors=True)
+                    continue
             try:
                 steps_full, obs_full, completed = run_with_crash(base, work, op, None)
             except Exception as e:      # the operation (or the restart after it) raised without any crash injected
@@ -553,7 +599,7 @@ def main():
                 traces.append({"consts": {"op": kind, "scenario": sn, "lease_only": lease_only, "targets": targets, "paths": PATHS,
                                           "fs0": fs0, "steps": steps, "expect": expect,
                                           "lease_targets": ["final/iA/0"] if kind == "imm_allocate_existing" else [], "crash_at": i, "nsteps": n, "bufmode": bufmode,
-                                          "completed": bool(completed)},
+                                          "completed": bool(completed), **extra},
                                "events": [{"obs": obs}]})
             shutil.rmtree(base, ignore_errors=True)
     finally:
